@@ -261,7 +261,7 @@ func runC05(c *Ctx) {
 				// derived from the rule's own pattern
 				okSrc := true
 				for src := range u.Leaves(leaf.Args[0]) {
-					isPat := len(src.Args) > 0 && ((src.Args[0].Op == "field" && src.Args[0].Aux == "pattern" && src.Args[0].Args[0] == f) || (patFinal != nil && src.Args[0] == patFinal))
+					isPat := len(src.Args) > 0 && ((src.Args[0].Op == "field" && src.Args[0].Aux == "pattern" && src.Args[0].Args[0] == f) || (patFinal != nil && (src.Args[0] == patFinal || src.Args[0] == u.Specialize(patFinal, u.bdd.And(cond, ef.Cond)) || u.Specialize(src.Args[0], u.bdd.And(cond, ef.Cond)) == u.Specialize(patFinal, u.bdd.And(cond, ef.Cond)))))
 					if !(src.Op == "call" && (src.Aux == calleeName(maskX) || src.Aux == calleeName(regexX)) && isPat) {
 						okSrc = false
 					}
